@@ -91,6 +91,7 @@ static void run_case(uint64_t c, unsigned max_threads) {
                 unsigned vi = same_value ? 0 : (ti % nvals);
                 ready.fetch_add(1);
                 while (!go.load(std::memory_order_acquire)) {
+                    std::this_thread::yield(); // (16 worker processes x 16 threads: do not burn the cores other workers need)
                 }
                 for (unsigned k = 0; k < reps; ++k) {
                     SS out;
@@ -103,6 +104,7 @@ static void run_case(uint64_t c, unsigned max_threads) {
             });
         }
         while (ready.load() < int(nt)) {
+            std::this_thread::yield();
         }
         go.store(true, std::memory_order_release);
         for (auto &x : th) x.join();
